@@ -532,3 +532,106 @@ def install_auc(sess, max_pairs=6000):
         sess.check("M-auc", got <= (upper - lower) + 1e-9, "partial AUC exceeds upper-lower", w(upper - lower), sig=sig, key="auc-bound")
 
     sess.wrap(S.Scores, "auc", "M-auc", post)
+
+
+# --------------------------------------------------------------------------------------
+# M-bci: utils.bootstrap_ci against the stdlib reference
+
+
+def bci_reference(theta, theta_hat, alpha, method):
+    """Reference limits for every metric component; returns array of shape Y+A+(2,)."""
+    theta = np.asarray(theta)
+    Y = theta.shape[1:]
+    alpha_arr = np.asarray(alpha, dtype=float)
+    A = alpha_arr.shape
+    cols = theta.reshape(theta.shape[0], -1).astype(float)
+    that = None if theta_hat is None else np.broadcast_to(np.asarray(theta_hat, dtype=float), Y).reshape(-1)
+    out = np.empty((cols.shape[1], alpha_arr.size, 2))
+    for j in range(cols.shape[1]):
+        col = cols[:, j].tolist()
+        for k, al in enumerate(alpha_arr.reshape(-1).tolist()):
+            out[j, k] = R.bootstrap_ci(col, None if that is None else float(that[j]), al, method)
+    return out.reshape(Y + A + (2,))
+
+
+def bci_tolerance(theta, expected):
+    fin = np.asarray(theta, dtype=float)
+    fin = fin[np.isfinite(fin)]
+    rng_ = float(fin.max() - fin.min()) if fin.size else 0.0
+    n = np.asarray(theta).shape[0]
+    return 1e-9 * np.maximum(1.0, np.abs(expected)) + 4e-14 * n * rng_
+
+
+def install_bci(sess):
+    import importlib
+    import sys
+
+    importlib.import_module("score_analysis.experimental.roc_ci")
+    roc_ci_mod = sys.modules["score_analysis.experimental.roc_ci"]
+    showbias_mod = sys.modules["score_analysis.showbias"]  # the package attribute 'showbias' is the function
+    U = sys.modules["score_analysis.utils"]
+
+    def post(snap, args, kwargs, res):
+        a = {"theta_hat": None, "alpha": 0.05, "method": "quantile"}
+        a.update(dict(zip(["theta", "theta_hat", "alpha"], args)))
+        a.update(kwargs)
+        theta = np.asarray(a["theta"])
+        method = a["method"]
+        alpha = np.asarray(a["alpha"], dtype=float)
+        if theta.ndim < 1 or theta.shape[0] < 1 or theta.dtype.kind not in "fiub" or theta.size == 0:
+            sess.skip("M-bci", "no replicates / non-numeric / zero-size metric")
+            return
+        if alpha.size == 0 or np.any(~((alpha > 0) & (alpha < 1))):
+            sess.skip("M-bci", "alpha outside (0,1) or empty")
+            return
+        if method not in ("quantile", "bc", "bca"):
+            sess.skip("M-bci", "unknown method")
+            return
+        if method != "quantile" and alpha.ndim != 0:
+            sess.skip("M-bci", "array alpha with bc/bca (only claimed for quantile)")
+            return
+        cols = theta.reshape(theta.shape[0], -1).astype(float)
+        if np.any(np.all(np.isnan(cols), axis=0)) or np.any(np.isinf(cols)):
+            sess.skip("M-bci", "all-NaN component or infinite replicate")
+            return
+        if method != "quantile":
+            th = np.asarray(a["theta_hat"], dtype=float)
+            if np.any(~np.isfinite(th)):
+                sess.skip("M-bci", "non-finite estimate")
+                return
+        want_shape = theta.shape[1:] + alpha.shape + (2,)
+        sig = (method, "N=%d" % min(theta.shape[0], 999) if theta.shape[0] <= 3 else "N>3", theta.dtype.kind, "Y%d" % (theta.ndim - 1), "A%d" % alpha.ndim,
+               "nan" if np.isnan(cols).any() else "-")
+        res_arr = np.asarray(res)
+        if not sess.check("M-bci", res_arr.shape == want_shape, "bootstrap_ci result shape", lambda: {"got": res_arr.shape, "want": want_shape, "method": method}, sig=sig, key="bci-shape"):
+            return
+        exp = bci_reference(theta, a["theta_hat"], alpha, method)
+        tol = bci_tolerance(theta, exp)
+        near_pole = np.isnan(exp) & ~np.isnan(res_arr)
+        ok = (np.abs(res_arr - exp) <= tol) | (np.isnan(exp) & np.isnan(res_arr)) | near_pole
+        sess.check("M-bci", bool(np.all(ok)), "bootstrap_ci differs from the documented formula",
+                   lambda: {"method": method, "theta": theta, "theta_hat": a["theta_hat"], "alpha": alpha, "got": res_arr, "expected": exp}, sig=sig, key="bci-formula-" + method)
+
+    def on_exc(snap, args, kwargs, exc):
+        a = {"theta_hat": None, "alpha": 0.05, "method": "quantile"}
+        a.update(dict(zip(["theta", "theta_hat", "alpha"], args)))
+        a.update(kwargs)
+        try:
+            theta = np.asarray(a["theta"])
+            alpha = np.asarray(a["alpha"], dtype=float)
+            ok_in = (theta.ndim >= 1 and theta.shape[0] >= 1 and theta.dtype.kind in "fiub" and theta.size > 0 and alpha.size > 0
+                     and bool(np.all((alpha > 0) & (alpha < 1))) and a["method"] in ("quantile", "bc", "bca")
+                     and (a["method"] == "quantile" or (alpha.ndim == 0 and a["theta_hat"] is not None
+                                                         and np.broadcast_shapes(np.shape(a["theta_hat"]), theta.shape[1:]) == theta.shape[1:])))
+        except Exception:
+            ok_in = False
+        if not ok_in:
+            sess.skip("M-bci", "raised on out-of-scope input")
+            return
+        sess.check("M-bci", False, "bootstrap_ci raised on in-scope input",
+                   lambda: {"method": a["method"], "theta": theta, "theta_hat": a["theta_hat"], "alpha": alpha, "exc": repr(exc)}, key="bci-raise")
+
+    sess.wrap(U, "bootstrap_ci", "M-bci", post, on_exc=on_exc)
+    # names bound at import time
+    sess.wrap(showbias_mod, "get_bootstrap_ci", "M-bci", post, on_exc=on_exc)
+    sess.wrap(roc_ci_mod, "bootstrap_ci", "M-bci", post, on_exc=on_exc)
